@@ -557,6 +557,7 @@ structure DSRec where
   alg : Nat
   dt : Nat
   digest : Bytes   -- the Digest field as text
+deriving DecidableEq
 
 structure DKey where
   flags : Nat
@@ -932,5 +933,62 @@ def verifyRRSIGWork (cv : VKey → VSig → List VRec → Verdict) (inPeriod : V
       if sl.isEmpty then (WRes.fail, b)
       else if !isRRset (hdrsOf set) then (WRes.fail, b)
       else sigLoop (oneSigWork cv inPeriod supAlg tagOf keys g set) (uniqueSortedSigs sl) 0 b) groups 0
+
+/-! ## `VerifyDSWithWork`: the DS walk under a work governor -/
+
+def upperByte (c : UInt8) : UInt8 := if 97 ≤ c.toNat ∧ c.toNat ≤ 122 then UInt8.ofNat (c.toNat - 32) else c
+
+/-- `dsID`: owner canonical, digest text upper-cased. -/
+def dsIdent (d : DSRec) : DSRec := { d with name := lower (fqdn d.name), digest := d.digest.map upperByte }
+
+def dsLt (a b : DSRec) : Bool :=
+  lexLt [bytesC (lower (fqdn a.name)) (lower (fqdn b.name)), natC a.cls b.cls, natC a.keyTag b.keyTag, natC a.alg b.alg,
+    natC a.dt b.dt, bytesC (a.digest.map upperByte) (b.digest.map upperByte)]
+
+/-- `uniqueSortedDSRecords`. -/
+def uniqueSortedDS (dss : List DSRec) : List DSRec := sortBy dsLt (dedupBy dsIdent dss [])
+
+def dkeyIdent (k : DKey) : DKey := { k with name := lower (fqdn k.name) }
+
+def dkeyLt (a b : DKey) : Bool :=
+  lexLt [bytesC (lower (fqdn a.name)) (lower (fqdn b.name)), natC a.cls b.cls, natC a.flags b.flags,
+    natC a.proto b.proto, natC a.alg b.alg, bytesC a.pk b.pk]
+
+/-- `uniqueSortedDNSKEYs` on the DS side. -/
+def uniqueSortedDKeys (keys : List DKey) : List DKey :=
+  if keys.length < 2 then keys else sortBy dkeyLt (dedupBy dkeyIdent keys [])
+
+/-- the candidate loop of `verifyDS` under a governor: `(result, digests begun)`. -/
+def dsCandLoop (dm : DKey → Bool) (g : Gov) : List DKey → Nat → Nat → WRes × Nat
+  | [], _, b => (WRes.fail, b)
+  | k :: t, cu, b =>
+    if g.maxCand ≤ cu then (WRes.work, b)
+    else if g.budget ≤ b then (WRes.work, b)
+    else if dm k then (WRes.ok, b + 1)
+    else dsCandLoop dm g t (cu + 1) (b + 1)
+
+/-- one DS of the sorted set: `(result, digests begun)`; `fail` = go on to the next DS. -/
+def dsOneWork (sup : DSRec → Bool) (dmatch : DKey → Nat → Bytes → Bool) (limit : Nat) (keys : List DKey) (g : Gov)
+    (d : DSRec) (b : Nat) : WRes × Nat :=
+  if !sup d then (WRes.fail, b) else
+  let cands := uniqueSortedDKeys (keys.filter (usableDSCandidate limit d))
+  if cands.isEmpty then (WRes.fail, b) else
+  match hexDecode d.digest with
+  | none => (WRes.fail, b)
+  | some want =>
+    if want.isEmpty then (WRes.fail, b)
+    else dsCandLoop (fun k => dmatch k d.dt want) g cands 0 b
+
+def dsLoopWork (one : DSRec → Nat → WRes × Nat) : List DSRec → Nat → WRes × Nat
+  | [], b => (WRes.fail, b)
+  | d :: t, b =>
+    match one d b with
+    | (WRes.fail, b') => dsLoopWork one t b'
+    | r => r
+
+/-- `VerifyDSWithWork` (`anchored == nil`): `(result, digests begun)`. -/
+def verifyDSWork (sup : DSRec → Bool) (dmatch : DKey → Nat → Bytes → Bool) (limit : Nat) (keys : List DKey) (g : Gov)
+    (dss : List DSRec) : WRes × Nat :=
+  dsLoopWork (dsOneWork sup dmatch limit keys g) (uniqueSortedDS dss) 0
 
 end SdnsVerif.Model.DnssecPrim
